@@ -485,24 +485,18 @@ func opCases(fn *ssa.Function) map[string]bool {
 }
 
 func (e *eng) opTables(binOps, unOps []string) {
-	// the wrapper's operator list
-	var wrapOps map[string]bool
-	for g, c := range e.globals {
-		if g.Pkg == e.sp && g.Name() == "ops" {
-			wrapOps = map[string]bool{}
-			if arr, ok := c.V.(*absint.Array); ok {
-				for _, el := range arr.E {
-					if s, ok := absint.ConstString(el); ok {
-						wrapOps[s] = true
-					}
-				}
-			}
-		}
-	}
+	// which lexemes the wrapper turns into operator nodes: asked of Wrap itself,
+	// whatever table it keeps them in
 	posW := "parser/token_wrapper.go"
-	if wrapOps == nil || len(wrapOps) < 10 {
-		e.s.Unk("ANCHOR", "parser.ops", posW, "the operator list of the token wrapper was not found")
-		return
+	wrapOps := map[string]bool{}
+	cands := append(append([]string{":"}, binOps...), unOps...)
+	for _, op := range cands {
+		if isOp, ok := e.wrapsAsOperator(op); !ok {
+			e.s.Unk("ANCHOR", "parser.tokenWrapper.Wrap", posW, fmt.Sprintf("Wrap could not be evaluated on the operator token %q", op))
+			return
+		} else if isOp {
+			wrapOps[op] = true
+		}
 	}
 	binFn := e.p.Method("types/node", "BinOp", "byteCode")
 	unFn := e.p.Method("types/node", "UnOp", "byteCode")
@@ -827,4 +821,55 @@ func (e *eng) gateRule() {
 	if n < 5 {
 		e.s.Unk("G9", "parser / look-ahead gates", "-", fmt.Sprintf("expected at least 5 look-ahead gates, found %d", n))
 	}
+}
+
+// wrapsAsOperator evaluates tokenWrapper.Wrap on the token the lexer produces
+// for the lexeme op and tells whether the result is an operator node carrying
+// that lexeme.
+func (e *eng) wrapsAsOperator(op string) (isOp bool, ok bool) {
+	wrapFn := e.p.Method("parser", "tokenWrapper", "Wrap")
+	tokPkg := e.p.Pkg("types/token")
+	if wrapFn == nil || tokPkg == nil {
+		return false, false
+	}
+	tokT := tokPkg.Types.Scope().Lookup("Type").Type()
+	kinds := e.p.ConstsOfType("types/token", "Kind")
+	sticky, _ := e.constStr("lexer", "stickyChars")
+	kind := "NotSticky"
+	if allIn(op, sticky) {
+		kind = "Sticky"
+	}
+	tst := tokT.Underlying().(*types.Struct)
+	o := &absint.Oracle{}
+	in := absint.NewInterp(e.p.SSA, o)
+	in.Globals = e.globals
+	z := absint.Zero(tokT).(*absint.Struct)
+	f := append([]absint.Val(nil), z.F...)
+	for i := 0; i < tst.NumFields(); i++ {
+		switch tst.Field(i).Name() {
+		case "Value":
+			f[i] = absint.MkString(op)
+		case "Type":
+			f[i] = absint.MkIntT(kinds[kind], tst.Field(i).Type())
+		}
+	}
+	tok := &absint.Iface{T: tokT, V: &absint.Struct{T: tokT, F: f}}
+	res, end := in.Run(wrapFn, []absint.Val{absint.Zero(wrapFn.Params[0].Type()), tok})
+	if end != nil || o.Next() {
+		return false, false
+	}
+	ifc, isI := res.(*absint.Iface)
+	if !isI {
+		return false, true
+	}
+	nt, isN := ifc.T.(*types.Named)
+	if !isN || nt.Obj().Name() != "BinOp" {
+		return false, true
+	}
+	if st, isS := ifc.V.(*absint.Struct); isS && len(st.F) > 0 {
+		if v, isC := absint.ConstString(st.F[0]); isC && v == op {
+			return true, true
+		}
+	}
+	return false, true
 }
